@@ -96,17 +96,26 @@ Qed.
    the ideal amount I sent so far *)
 Definition entry_fits (e : entry_details) : Prop := match e with EDFile _ size => size <= u64_max | _ => True end.
 
+(* the constants are u64 values (a computation on the generated facts) *)
+Lemma consts_fit_ok : min_file_size <= u64_max /\ delete_work <= u64_max.
+Proof.
+  assert (H : consts_fit = true) by (vm_compute; reflexivity).
+  unfold consts_fit in H. apply andb_true_iff in H as [H _]. apply andb_true_iff in H as [H1 H2].
+  split; now apply N.leb_le.
+Qed.
+Global Opaque min_file_size delete_work marker_threshold.
+
 Lemma for_copy_fits e : entry_fits e -> fits (for_copy e).
 Proof.
   destruct e as [mt size| |k t]; cbn [entry_fits for_copy]; unfold fits; cbn [pv_work pv_bytes];
-    rewrite u64_max_val; unfold min_file_size; intros; lia.
+    pose proof consts_fit_ok; intros; lia.
 Qed.
 Lemma for_delete_fits : fits for_delete.
-Proof. unfold fits, for_delete, delete_work; cbn [pv_work pv_bytes]; rewrite u64_max_val; lia. Qed.
+Proof. unfold fits, for_delete; cbn [pv_work pv_bytes]; pose proof consts_fit_ok; lia. Qed.
 Lemma ipartial_fits st sz fs : sz <= u64_max -> fits (ipartial st sz fs).
 Proof.
-  intros H. unfold ipartial, fits, min_file_size. rewrite u64_max_val in *.
-  destruct (st + sz <? fs); destruct (1048576 <? fs); cbn [pv_work pv_bytes]; lia.
+  intros H. unfold ipartial, fits. pose proof consts_fit_ok.
+  destruct (st + sz <? fs); destruct (min_file_size <? fs); cbn [pv_work pv_bytes]; lia.
 Qed.
 
 Definition call_ok (T I : pv) (c : call) : Prop :=
@@ -332,9 +341,9 @@ Proof.
         cbn [ipv_add pv_zero pv_delete pv_copy pv_work pv_bytes is_ok]. repeat split; try lia; try discriminate.
       * assert (Heq : off + n = size) by lia.
         cbn [ipv_add pv_zero pv_delete pv_copy pv_work pv_bytes]. repeat split; try lia.
-        intros _. unfold acc, file_pv, min_file_size.
+        intros _. unfold acc, file_pv.
         apply pv_ext; cbn [ipv_add pv_zero pv_work pv_delete pv_copy pv_bytes];
-          destruct (1048576 <? size) eqn:E4; lia.
+          destruct (min_file_size <? size) eqn:E4; lia.
 Qed.
 
 Lemma acc_zero size : acc size 0 = pv_zero.
@@ -349,8 +358,8 @@ Proof.
   intros Hsize Hans. unfold copy_file_calls. destruct dry.
   - cbn [fst snd wf_calls ieff ieff1 is_ok]. unfold ipartial. destruct (0 + size <? size) eqn:E; [lia|].
     cbn [ipv_add pv_zero pv_delete pv_copy pv_work pv_bytes]. repeat split; try lia.
-    intros _. unfold file_pv, min_file_size.
-    apply pv_ext; cbn [ipv_add pv_zero pv_work pv_delete pv_copy pv_bytes]; destruct (1048576 <? size) eqn:E4; lia.
+    intros _. unfold file_pv.
+    apply pv_ext; cbn [ipv_add pv_zero pv_work pv_delete pv_copy pv_bytes]; destruct (min_file_size <? size) eqn:E4; lia.
   - destruct ans as [an|].
     + pose proof (file_calls_acct size Hsize an 0 (Hans an eq_refl) (or_intror eq_refl)) as H.
       cbn zeta in H. destruct H as (W & D & C & A). cbn [fst snd wf_calls ieff ieff1].
@@ -669,9 +678,15 @@ Proof.
 Qed.
 
 (* ... and with a visible progress bar the marker assertion `sent.copy <= total.copy` fails first *)
-Lemma trailing_empty_chunk_marker_refuted :
+(* finite computations that depend on the values of the constants are stated for the usual values *)
+Definition usual_constants : Prop := min_file_size = 1048576 /\ delete_work = 1048576 /\ marker_threshold = 1048576.
+Ltac by_constants := intros (H1 & H2 & H3); first
+  [ vm_compute; reflexivity
+  | exfalso; vm_compute in H1, H2, H3; first [discriminate H1 | discriminate H2 | discriminate H3] ].
+
+Lemma trailing_empty_chunk_marker_refuted : usual_constants ->
   boss_run Saturating true false [] [EDFile t0 10] [[(10, true); (0, true); (0, false)]] = Panic e_assert_copy.
-Proof. vm_compute. reflexivity. Qed.
+Proof. by_constants. Qed.
 
 (* the code before the repair of the byte totals: three maximal sparse files *)
 Lemma unfixed_totals_refuted :
@@ -694,12 +709,15 @@ Example progress_example :
   let copies := [EDFolder; EDSymlink SKFile (STNormalized []); EDFile t0 0; EDFile t0 10; EDFile t0 3145728] in
   let answers := [[(0, false)]; [(4, true); (6, false)]; [(1048576, true); (2097152, false)]] in
   Forall tail_nonempty answers /\
-  boss_run Saturating true false dels copies answers =
+  is_ok (boss_run Saturating true false dels copies answers) = true /\
+  (usual_constants ->
+   boss_run Saturating true false dels copies answers =
     Ok [mkMarker 1048576 (PDeleting 1); mkMarker 2097152 (PCopying 0 0); mkMarker 3145728 (PCopying 1 0);
         mkMarker 4194304 (PCopying 2 0); mkMarker 5242880 (PCopying 3 0); mkMarker 6291456 (PCopying 4 10);
-        mkMarker 7340032 (PCopying 4 1048586); mkMarker 9437184 PDone].
+        mkMarker 7340032 (PCopying 4 1048586); mkMarker 9437184 PDone]).
 Proof.
-  cbn zeta. split.
+  cbn zeta. split; [|split].
   - repeat constructor; unfold nonempty; cbn [fst]; lia.
   - vm_compute. reflexivity.
+  - by_constants.
 Qed.
